@@ -164,10 +164,16 @@ func safeQualifiedName(name string) string {
 func escapeStringLiteral(s string) string {
 	var b strings.Builder
 	b.Grow(len(s))
-	for _, r := range s {
+	for i, r := range s {
 		switch r {
 		case '\'':
-			b.WriteString("''")
+			if i == 0 {
+				// a doubled quote right after the opening quote would read back as
+				// the opener of a triple-quoted string
+				b.WriteString(`\'`)
+			} else {
+				b.WriteString("''")
+			}
 		case '\\':
 			b.WriteString(`\\`)
 		case '\n':
